@@ -71,6 +71,12 @@ static char *run_program(int id)
   config_setting_set_string(st, text + 10);
   put(&res, &len, &cap, "rm %d %d\n", config_setting_remove(root, "g.hex"), config_setting_remove_elem(n, (unsigned)id));
   put(&res, &len, &cap, "len %d idx %d\n", config_setting_length(n), config_setting_index(n));
+  /* floats whose rendering is long (more than the 64 bytes of the writer's formatting buffer without scientific notation):
+     whatever the writer does with them, it must not involve memory shared between the threads */
+  config_setting_t *hf = config_setting_add(root, "huge", CONFIG_TYPE_FLOAT);
+  config_setting_set_float(hf, 1.5e70 * (id + 1));
+  hf = config_setting_add(root, "tiny", CONFIG_TYPE_FLOAT);
+  config_setting_set_float(hf, -2.5e-70 / (id + 1));
   /* write to memory and to a file of its own, read the file back */
   char *wbuf = NULL; size_t wlen = 0;
   FILE *m = open_memstream(&wbuf, &wlen);
